@@ -10,17 +10,17 @@ import (
 )
 
 type replayFile struct {
-	Property  string          `json:"property"`
-	Signature string          `json:"signature"`
-	Detail    string          `json:"detail"`
-	SimTimeMs int64           `json:"sim_time_ms"`
-	EventSeq  uint64          `json:"event_seq"`
-	Seed      uint64          `json:"seed"`
-	Race      bool            `json:"race,omitempty"`
-	Minimised bool            `json:"minimised"`
-	Steps     int             `json:"shrink_runs"`
-	Spec      json.RawMessage `json:"spec"`
-	StderrTail string         `json:"stderr_tail,omitempty"`
+	Property   string          `json:"property"`
+	Signature  string          `json:"signature"`
+	Detail     string          `json:"detail"`
+	SimTimeMs  int64           `json:"sim_time_ms"`
+	EventSeq   uint64          `json:"event_seq"`
+	Seed       uint64          `json:"seed"`
+	Race       bool            `json:"race,omitempty"`
+	Minimised  bool            `json:"minimised"`
+	Steps      int             `json:"shrink_runs"`
+	Spec       json.RawMessage `json:"spec"`
+	StderrTail string          `json:"stderr_tail,omitempty"`
 }
 
 func hasSig(o *outcome, sig string) (bool, *violation) {
